@@ -120,12 +120,7 @@ class State(_train.Listener):
 
         retained = {k2: getattr(model, k2).copy() for k2 in ("H_", "_leaf") if isinstance(getattr(model, k2, None), np.ndarray)}
         P0 = model._infer(Xb, retain=False)
-        ferr = 100 * numdiff.EPS
-        if Ab is not None:
-            A_ = np.asarray(Ab, dtype=float)
-            ferr = 1e-14 * float(np.max(np.abs(A_))) + 100 * numdiff.EPS * max(1.0, float(np.max(np.abs(A_))))
-            if type(gem).__name__ == "MMDGEMINI":
-                ferr += _gem.mmd_tolerance(gem, np.clip(P0, gem.epsilon, 1 - gem.epsilon), A_, rel=1e-14)
+        ferr = _gem.score_abs_err(gem, P0, Ab)
         if fam == "KernelRIM":
             ferr += 100 * numdiff.EPS * model.reg * float(np.abs(np.trace(model.W_.T @ np.asarray(Xfull) @ model.W_)))
         ctx.count("steps_monitored")
@@ -234,15 +229,22 @@ def run_case(case, ctx, st):
     st.cap = 64 if case.get("tier") == "thorough" else 16
     name = WEIGHTED[i % len(WEIGHTED)]
     n, d = int(rng.integers(6, 17)), int(rng.integers(1, 5))
+    wide = rng.random() < 0.12           # occasional wide shapes (many samples / features / clusters / hidden units)
+    if wide:
+        n, d = int(rng.integers(17, 41)), int(rng.integers(4, 10))
     if name == "Douglas":
         d = int(rng.integers(1, 4))
     nonneg = bool(rng.random() < 0.15)
     X = gen.make_data(rng, n, d, "nonneg" if nonneg else "blobs")
     X += rng.normal(scale=1e-3, size=X.shape)      # rows pairwise distinct (unique-id coding)
-    K = int(rng.integers(2, min(4, n) + 1))
+    K = int(rng.integers(2, min(4, n) + 1)) if not wide else int(rng.integers(4, 10))
     epochs = int(rng.integers(3, 41)) if rng.random() < 0.3 else int(rng.integers(3, 9))
     params, pre = gen.random_config(rng, name, n, d, K=K, max_iter=epochs, nonneg=nonneg)
     params["learning_rate"] = float(10 ** rng.uniform(-2, -0.3))
+    if wide and "n_hidden_dim" in params:
+        params["n_hidden_dim"] = int(rng.integers(6, 25))
+    if wide and isinstance(params.get("gemini"), (str, dict)) and "wasserstein" in str(params.get("gemini")).lower() and n > 24:
+        params["batch_size"] = 12
     if name not in gen.NONPARAMETRIC:
         params["batch_size"] = [1, 2, -(-n // 3), n, None, n + 3][int(rng.integers(0, 6))]
     if name in gen.SPARSE:
